@@ -15,7 +15,7 @@ Seed == Params.seed
 Lcg(x) == (x * 1021 + 24691) % 1048576
 RECURSIVE LcgN(_, _)
 LcgN(x, n) == IF n = 0 THEN x ELSE LcgN(Lcg(x), n - 1)
-Start(seed, salt, r) == LcgN((seed * 7919 + salt * 611953 + r * 104729) % 1048576, 3)
+Start(seed, salt, r) == LcgN(((((seed % 100000) * 7919) % 1048576) + (((salt % 1000) * 611953) % 1048576) + (((r % 10007) * 104729) % 1048576) + ((r \div 10007) * 31)) % 1048576, 3)
 
 RECURSIVE Pow10(_)
 Pow10(e) == IF e = 0 THEN 1 ELSE 10 * Pow10(e - 1)
@@ -56,6 +56,7 @@ GsOf(L, j) ==    \* j in 0..NNum-1
   ELSE RandGs(Start(Seed, Len(L) + 41, j - NUpto - NRep))
 
 Kind == Params.kind
+WantOr(default) == IF "want" \in DOMAIN Params THEN Params.want ELSE default
 Ctx(L, n) == LET C == Contexts[L] IN C[(n % Len(C)) + 1]
 \* numbers whose standard spelling falls under a recorded C01 finding are kept out of the other kinds,
 \* so that each finding is reported by exactly one property (de: eine Million / eine Milliarde)
@@ -64,13 +65,13 @@ Below9(gs) == [gs EXCEPT ![4] = 0]
 
 CardReq(L, n, gs, v) == LET c == Ctx(L, n)  phrase == Cardinal(L, gs, v) IN
   [i |-> n, kind |-> "card", lang |-> L, gs |-> gs, v |-> v, pre |-> c[1], suf |-> c[2],
-   texts |-> <<phrase, c[1] \o phrase \o c[2]>>, thrs |-> <<"0">>, want |-> <<"t2d", "rew">>]
+   texts |-> <<phrase, c[1] \o phrase \o c[2]>>, thrs |-> <<"0">>, want |-> WantOr(<<"t2d", "rew">>)]
 \* C16: k zero words then the number; the number then a zero word
 ZerosReq(L, n, gs0, v, k) == LET gs == IF IsZero(Below9(Clean(L, gs0))) THEN <<1, 0, 0, 0>> ELSE Below9(Clean(L, gs0))
                                  c == Ctx(L, n)  num == Cardinal(L, gs, v)
                                  phrase == JoinW([j \in 1..k |-> ZeroWord[L]] \o <<num>>) IN
   [i |-> n, kind |-> "zeros", lang |-> L, gs |-> gs, v |-> v, k |-> k, pre |-> c[1], suf |-> c[2],
-   texts |-> <<phrase, c[1] \o phrase \o c[2], num \o " " \o ZeroWord[L], ZeroWord[L]>>, thrs |-> <<"0">>, want |-> <<"t2d", "rew">>]
+   texts |-> <<phrase, c[1] \o phrase \o c[2], num \o " " \o ZeroWord[L], ZeroWord[L]>>, thrs |-> <<"0">>, want |-> WantOr(<<"t2d", "rew">>)]
 \* C05: integer part, separator word, fraction; and the negative forms
 DigitStr(x, len) == [j \in 1..len |-> Ch("0123456789", ((LcgN(x, j) \div 32) % 10) + 1)]
 DecReq(L, n, gs0, d) == LET gs == Below9(Clean(L, gs0))  c == Ctx(L, n)  v == Variants(L)[1]
@@ -79,7 +80,7 @@ DecReq(L, n, gs0, d) == LET gs == Below9(Clean(L, gs0))  c == Ctx(L, n)  v == Va
                             one == DigitWords[L][6] IN
   [i |-> n, kind |-> "dec", lang |-> L, gs |-> gs, v |-> v, d |-> d, pre |-> c[1], suf |-> c[2], sep |-> sep, five |-> one,
    texts |-> <<phrase, c[1] \o phrase \o c[2], sep \o " " \o one, one \o " " \o sep, one \o " " \o sep \o " xyz", one \o " " \o sep \o ", " \o one>>,
-   thrs |-> <<"0">>, want |-> <<"rew", "occs">>]
+   thrs |-> <<"0">>, want |-> WantOr(<<"rew", "occs">>)]
 \* C08: two numbers below 100, one after the other, with a blank or the conjunction between them
 PairReq(L, n, a, b, conj, v) == LET sa == Cardinal(L, <<a, 0, 0, 0>>, v)  sb == Cardinal(L, <<b, 0, 0, 0>>, v)
                                     j == IF conj THEN " " \o ConjWord[L] \o " " ELSE " " IN
@@ -105,7 +106,7 @@ OrdGs(L, j) == LET lim == IF L \in {"es", "pt"} THEN 1999 ELSE 999999 IN
        IF L \in {"es", "pt"} THEN <<IF a = 0 THEN 1 ELSE a, b % 2, 0, 0>> ELSE <<IF a = 0 /\ b = 0 THEN 1 ELSE a, b, 0, 0>>
 OrdReq(L, n, gs, v, infl) == LET C == OrdContexts[L]  c == C[(n % Len(C)) + 1]  phrase == Ordinal(L, gs, v, infl) IN
   [i |-> n, kind |-> "ord", lang |-> L, gs |-> gs, v |-> v, infl |-> infl, pre |-> c[1], suf |-> c[2],
-   texts |-> <<phrase, c[1] \o phrase \o c[2]>>, thrs |-> <<"0">>, want |-> <<"t2d", "rew", "occs">>]
+   texts |-> <<phrase, c[1] \o phrase \o c[2]>>, thrs |-> <<"0">>, want |-> WantOr(<<"t2d", "rew", "occs">>)]
 
 ForLang(L, base) ==
   LET VS == Variants(L) nv == Len(VS) IN
